@@ -273,6 +273,16 @@ def modes(ctx, ci, cc):
       subs[norm_text(s.value.value)] = norm_text(s.value.slice)
   ok = subs.get('ABCTune.KEY_TO_SIG') == "''.join(key_components[0:2] + [mode]).lower()" and subs.get('ABCTune.KEY_TO_PROTO_KEY') == "''.join(key_components[0:2]).lower()"
   ctx.ob('MODE/lookups', fi, fn, ok, 'signature is looked up by tonic+mode, proto key by tonic (both lower-cased)' if ok else 'key table lookups use %s' % subs, construct='KEY_TO_SIG[tonic+mode], KEY_TO_PROTO_KEY[tonic]')
+  # location-independent: an accidental written in the K: field names the accidental of that note ("^f": f is sharp), it does not
+  # sharpen or flatten whatever the signature already says: the per-note entry is *assigned*, never incremented
+  rel = [s for s in U.walk_stmts(fn) if isinstance(s, ast.AugAssign) and isinstance(s.target, ast.Subscript) and norm_text(s.target.value) == 'accidentals']
+  for s in rel:
+    ctx.ob('MODE/accidental-absolute', fi, s, False, '%s changes the accidental of a note *relative* to the key signature: "K:G ^f" then makes f a double sharp, "K:F _b" a double '
+           'flat (ABC 2.1: the accidentals after the mode name are set explicitly)' % norm_text(s), construct='K: accidentals are set, not added', definite=True)
+  if not rel:
+    sets = [s for s in U.walk_stmts(fn) if isinstance(s, ast.Assign) and isinstance(s.targets[0], ast.Subscript) and norm_text(s.targets[0].value) == 'accidentals']
+    if sets:
+      ctx.ob('MODE/accidental-absolute', fi, sets[0], True, 'explicit accidentals of the K: field are assigned', construct='K: accidentals are set, not added', definite=True)
   exp = [s for s in U.walk_stmts(fn) if isinstance(s, ast.Assign) and norm_text(s.targets[0]) == 'accidentals']
   texts = sorted(norm_text(s.value) for s in exp)
   ok = texts == ['ABCTune._sig_to_accidentals(0)', 'ABCTune._sig_to_accidentals(sig)']
@@ -493,6 +503,7 @@ def broken_rhythm(ctx, ci):
   m = ci.methods.get('_apply_broken_rhythm')
   ctx.require(m is not None, 'ABCTune._apply_broken_rhythm not found')
   sym = m.params()[1]
+  rhythm_paths(ctx, m, sym)
   lens = roles.assigned_where(m.node, lambda v, st: isinstance(v, ast.BinOp) and isinstance(v.op, ast.Sub) and norm_text(v.left).endswith('.end_time') and
                               norm_text(v.right).endswith('.start_time') and norm_text(v.left).split('.')[0] == norm_text(v.right).split('.')[0])
   ctx.require(len(lens) == 2, '_apply_broken_rhythm: the two note lengths were not found')
@@ -587,6 +598,72 @@ def unit_length(ctx, ci):
   free = [st for st in U.walk_stmts(m.node) if isinstance(st, ast.If) and norm_text(st.test).replace(' ', '') in ('notself._ns.time_signatures',)]
   okf = len(free) == 1 and length_of(free[0].body) == (1, 8)
   ctx.ob('UNIT/free-meter', m, free[0] if free else m.node, okf, 'free meter -> L:1/8' if okf else 'free meter does not default to L:1/8', construct='default L: for free meter')
+
+
+def rhythm_paths(ctx, m, sym):
+  """Location-independent: every path through _apply_broken_rhythm is followed by substitution (sa.pathval); on the paths taken for
+  '<' and for '>' the values left in <first note>.end_time and <second note>.start_time are compared, as rational normal forms,
+  with the ABC rule: with L the common length and P = 2 ** len(symbol), '>' leaves the second note L/P long and gives the rest
+  to the first (the boundary moves later by L - L/P), '<' is the mirror image.  The comparison is made under the equalities the
+  function itself establishes or the notation implies (equal lengths; the second note starts where the first ends): normal forms
+  that differ under them differ for every ordinary pair of adjacent notes."""
+  from sa import pathval
+  E = U.E
+  fn = m.node
+  # the two notes by how they are fetched: notes[-2] is the first, notes[-1] the second
+  pos = {}
+  for st in fn.body:
+    if isinstance(st, ast.Assign) and isinstance(st.targets[0], ast.Name) and isinstance(st.value, ast.Subscript) and U.const_value(st.value.slice) in (-1, -2):
+      pos[U.const_value(st.value.slice)] = st.targets[0].id
+  if set(pos) != {-1, -2}:
+    return
+  a, b = pos[-2], pos[-1]
+  body = [st for st in fn.body if not (isinstance(st, ast.If) and any(isinstance(x, ast.Raise) for x in st.body) and not st.orelse) and
+          not (isinstance(st, ast.Assign) and isinstance(st.targets[0], ast.Name) and st.targets[0].id in (a, b))]
+  try:
+    ps = pathval.paths(body, {})
+  except pathval.PathError:
+    return
+  S1, E1, S2, E2 = (ast.Name(id=x, ctx=ast.Load()) for x in ('S1', 'E1', 'S2', 'E2'))
+  env = {'%s.start_time' % a: E('S1'), '%s.end_time' % a: E('S1 + L'), '%s.start_time' % b: E('S1 + L'), '%s.end_time' % b: E('S1 + L + L'),
+         '2 ** len(%s)' % sym: E('P')}
+
+  def R(x):
+    class Sub(ast.NodeTransformer):
+      def generic_visit(self, node):
+        if isinstance(node, ast.expr) and norm_text(node) in env:
+          return env[norm_text(node)]
+        return super().generic_visit(node)
+
+      def visit(self, node):
+        if isinstance(node, ast.expr) and norm_text(node) in env:
+          return env[norm_text(node)]
+        return super().visit(node)
+    import copy
+    return nf.rat(Sub().visit(copy.deepcopy(x)))
+  want = {'>': ('S1 + L + L - L / P'), '<': ('S1 + L / P')}
+  for conds, out, end in ps:
+    if end != 'fall':
+      continue
+    which = None
+    for t, pol in conds:
+      sd = U.eq_sides(t, lambda x: norm_text(x) == '%s[0]' % sym, lambda y: isinstance(y, ast.Constant) and y.value in ('<', '>'))
+      if sd and pol:
+        which = sd[1].value
+    if which is None:
+      continue
+    for loc, label in (('%s.end_time' % a, 'the end of the first note'), ('%s.start_time' % b, 'the start of the second note')):
+      if loc not in out:
+        ctx.ob('RHYTHM/boundary', m, fn, False, "for '%s' %s is not moved" % (which, label), construct="broken rhythm '%s': %s" % (which, label), definite=True)
+        continue
+      try:
+        d = R(out[loc]) - nf.rat(E(want[which]))
+      except nf.NFError:
+        continue
+      ok = d.is_zero()
+      ctx.ob('RHYTHM/boundary', m, fn, ok, "for '%s' %s is where the ABC rule puts it" % (which, label) if ok else
+             "for '%s' %s becomes %s; with L the common length and P = 2**len(symbol) the rule puts it at %s (difference %r): right for a single '%s' at most" % (
+                 which, label, norm_text(out[loc]), want[which].replace('S1', 'start'), d, which), construct="broken rhythm '%s': %s" % (which, label), definite=True)
 
 
 MUTANTS = [
